@@ -42,6 +42,20 @@ def gen(rng, ctx):
                     keep.add(p)
                     st.append(p)
         cd = {"name": cd["name"], "nodes": [[n, t, n == o] for n, t, _ in cd["nodes"] if n in keep], "edges": [e for e in cd["edges"] if e[0] in keep and e[1] in keep], "bbs": {}}
+    if rng.random() < 0.1:
+        # a node already carrying the name limit_fanin would give its helper gate (e.g. the circuit came out of limit_fanin(c, 3))
+        preds = G.cd_preds(cd)
+        tps = G.cd_types(cd)
+        wide = [n for n, t, _ in cd["nodes"] if t in G.GATESN and len(preds[n]) > 2]
+        if wide:
+            g = rng.choice(wide)
+            victims = [n for n, t, _ in cd["nodes"] if n != g and t in G.ALL_GATES]
+            if victims:
+                try:
+                    cd = G.cd_rename(cd, {rng.choice(victims): f"{g}_limit_fanin_{rng.choice([0, 0, 1])}"})
+                    shape += "+hostile"
+                except ValueError:
+                    pass
     return {"c": cd, "supercircuit": sup, "shape": shape}
 
 
@@ -50,7 +64,9 @@ def check(case, ctx):
     cd = case["c"]
     c = G.build(cg, cd, "graph")
     net = Net.of(c)
-    ctx.count(f"shape:{case['shape']}")
+    ctx.count(f"shape:{case['shape'].split('+')[0]}")
+    if "hostile" in case["shape"]:
+        ctx.count("hostile_helper_names")
     ctx.count(f"supercircuit:{case['supercircuit']}")
     captured = []
     orig = cg.tx.limit_fanin
@@ -214,5 +230,5 @@ def check(case, ctx):
 
 
 def gates(counters, table, tier):
-    need = ["supercircuit:True", "supercircuit:False", "has_reconvergence", "internal_limit_fanin_observed", "supergates:1", "supergates:2", "supergates:3", "cmp:supercircuit"]
+    need = ["hostile_helper_names", "supercircuit:True", "supercircuit:False", "has_reconvergence", "internal_limit_fanin_observed", "supergates:1", "supergates:2", "supergates:3", "cmp:supercircuit"]
     return [f"{k} seen {counters.get(k, 0)} times" for k in need if counters.get(k, 0) < 5]
